@@ -28,7 +28,7 @@ ASSUMPTIONS = [
     "creation date is excluded from metafile comparison",
 ]
 BUDGET = {
-    "quick": {"examples": 250, "workers": 8, "time_cap": 80},
+    "quick": {"examples": 300, "workers": 8, "time_cap": 80},
     "thorough": {"examples": 2500, "workers": 14, "time_cap": 900},
 }
 HERE = os.path.dirname(os.path.dirname(os.path.dirname(os.path.abspath(__file__))))
@@ -76,10 +76,33 @@ def strategy(tier):
         st.fixed_dictionaries({"op": st.just("magnet"), "m": st.integers(0, 9)}),
         st.fixed_dictionaries({"op": st.just("rebuild"), "m": st.integers(0, 9)}),
     )
+    create_op = st.fixed_dictionaries({"op": st.just("create"), "ver": st.sampled_from(["1", "2", "3"]), "route": st.sampled_from(["lib", "cli", "lib-class"]),
+                                       "target": st.sampled_from(["dir", "file"]), "k": st.integers(0, 9), "auto": st.sampled_from([False, False, True]),
+                                       "pexp": st.sampled_from([14, 15, 16])})
+
+    # idioms: "use something, change the world underneath it, use it again" as one drawn unit (each expands to three steps)
+    @st.composite
+    def sandwich(draw):
+        kind = draw(st.sampled_from(["create", "create", "recheck", "rebuild", "hybrid-empty"]))
+        if kind == "create":
+            c = draw(create_op)
+            return [c, draw(fsop), dict(c, pexp=draw(st.sampled_from([c["pexp"], 14, 15])))]
+        if kind == "hybrid-empty":
+            k = draw(st.integers(0, 9))
+            c = {"op": "create", "ver": "3", "route": draw(st.sampled_from(["lib", "cli", "lib-class"])), "target": "file", "k": k, "auto": False, "pexp": 14}
+            return [c, {"op": "resize", "k": k, "size": 0}, c]
+        m = draw(st.integers(0, 9))
+        mid = draw(st.one_of(fsop, st.fixed_dictionaries({"op": st.just("restore"), "k": st.integers(0, 9)})))
+        if kind == "recheck":
+            r = {"op": "recheck", "m": m, "content": draw(st.sampled_from(["root", "parent"]))}
+            return [r, mid, r]
+        return [{"op": "rebuild", "m": m}, mid, {"op": "rebuild", "m": m}]
+
+    unit = st.one_of(tfop.map(lambda o: [o]), tfop.map(lambda o: [o]), fsop.map(lambda o: [o]), sandwich())
     return st.fixed_dictionaries({
         "initial": st.lists(st.tuples(st.sampled_from(NAMES), st.sampled_from([1, 5000, 16384, 20000])), min_size=1, max_size=4, unique_by=lambda t: t[0]).map(
             lambda l: [{"name": n, "size": s} for n, s in l]),
-        "steps": st.lists(st.one_of(tfop, tfop, fsop), min_size=3, max_size=25 if tier != "quick" else 14),
+        "steps": st.lists(unit, min_size=3, max_size=18 if tier != "quick" else 10).map(lambda us: [o for u in us for o in u]),
     })
 
 
